@@ -122,6 +122,6 @@ pub fn base_env_unpinned() -> Vec<(String, String)> {
 
 pub fn zerv_bin() -> std::path::PathBuf {
     std::env::var("ZERV_BIN")
-        .map(Into::into)
-        .unwrap_or_else(|_| "/verif/target/zerv-bin/debug/zerv".into())
+        .unwrap_or_else(|_| format!("{}/target/zerv-bin/debug/zerv", crate::verif_root()))
+        .into()
 }
